@@ -1,5 +1,6 @@
 (* allow-axioms:  *)
 From RRE Require Import Base.Sx Model.Undo Proofs.UndoProofs.
+From RRE Require Model.Backward Proofs.BackwardProofs.
 Open Scope N_scope.
 From RRE Require Import Properties.C10.
 Check (C10_undo_refines_snapshots : forall nk kv ops, run nk kv ops = srun nk kv ops).
@@ -9,3 +10,5 @@ Check (C10_rollback_restores : forall kv ops0 ops,
   let f' := exec f (Begin :: ops ++ [Rollback]) in
   seq (data f') (data f) /\ seq (types f') (types f)).
 Check (C10_monitor_accepts_model : forall nk kv ops, ok nk kv ops (run nk kv ops) = true).
+Check (C10_failed_query_restores : forall rules max_depth fuel goal cands depth f f',
+  Backward.search rules max_depth fuel goal cands depth f = (false, f') -> f' = f).
